@@ -19,6 +19,12 @@ volatile uint64_t raises_begun, raises_done, waits_begun, waits_done;
 volatile uint64_t last_wait_begun_raises;   /* raises begun when the last wait began */
 
 void vm_init(void) { k_init(); fiber_signal_init(&sig); }
+/* fiber->scratch is shared with other subsystems (the event engine resumes a poller with scratch = (void*)-1, the multi
+   channel keeps list links there): the waiter starts with an arbitrary left-over value, in particular the READY_TO_WAKE marker */
+void vm_setup(void) {
+  uint64_t v = vm_nondet();
+  if (v == 0 || v == (uint64_t)-1 || v == 0x10) k_fiber[1]->scratch = (void*)v; else k_fiber[1]->scratch = 0;
+}
 
 void vm_thread_1(void) {
   for (int i = 0; i < NWAITS; i++) {
